@@ -1,27 +1,12 @@
 INIT Init
 NEXT Next
 CONSTANTS
-  Keys <- K2b
-  AllowedKeys <- None
-  AllowedModes <- No
-  Forms = {"bare"}
-  IntCoefs <- None
-  DecCoefs <- None
-  InactCoefs <- None
-  MaxReac = 1
-  MaxProd = 1
-  MaxInact = 0
-  Arrows = {"->", "="}
-  Params <- P_one
-  Kws <- None
-  MaxLines = 3
-  Comments <- C_t
-  MaxComments = 2
-  PrintOpts <- O_all
-  FaultKinds <- None
+  SliceTable <- AllSlices
+  SliceNames = {"system_t"}
 INVARIANT TypeOK
 INVARIANT RepeatedSpeciesSummed
 INVARIANT InactiveNeverActive
 INVARIANT ParsePrintIdentity
+INVARIANT TextWins
 INVARIANT Emit
 CHECK_DEADLOCK FALSE
